@@ -51,6 +51,13 @@ func (C10) Generate(c *Ctx, r *Rand, index int) *Scenario {
 	}
 	opts.PlainOnly = rs.Chance(1, 3)
 	sc.Files = GenMultiFiles(r.Fork("files"), opts)
+	if variant != 3 && rs.Chance(1, 12) {
+		// one input arrives through a named pipe (as with process substitution): it has no size to stat
+		k := rs.Intn(len(sc.Files))
+		if sc.Files[k].Name != "-" {
+			sc.Files[k].Fifo = true
+		}
+	}
 	var e Expr
 	if variant == 2 {
 		fi := FormatByName(format)
